@@ -160,13 +160,15 @@ SplitAccepted(k, g, pc) == k >= 2 /\ (g = "" \/ pc = "" \/ g = pc)
 \* folds = sequence of k records [est, val] of rows.  Allowed outcomes: the validation parts are
 \* pairwise disjoint and together contain every row once (as bags: labels and equal rows may
 \* repeat), each estimation part is the complement, no group is separated.
+GroupsIntact(cs, g, folds) ==
+    g # "" => \A f1, f2 \in 1..Len(folds) : f1 # f2 =>
+            \A i \in 1..Len(folds[f1].val), j \in 1..Len(folds[f2].val) :
+                Cell(folds[f1].val[i], cs, g) # Cell(folds[f2].val[j], cs, g)
 SplitOK(tb, cs, k, g, folds) ==
     /\ Len(folds) = k
     /\ BagEq(Flat([f \in 1..Len(folds) |-> folds[f].val]), tb)
     /\ \A f \in 1..Len(folds) : BagEq(folds[f].est \o folds[f].val, tb)
-    /\ g # "" => \A f1, f2 \in 1..Len(folds) : f1 # f2 =>
-            \A i \in 1..Len(folds[f1].val), j \in 1..Len(folds[f2].val) :
-                Cell(folds[f1].val[i], cs, g) # Cell(folds[f2].val[j], cs, g)
+    /\ GroupsIntact(cs, g, folds)
 \* constructive form used by the model: an assignment of the groups to the folds
 GroupKey(tb, cs, g, i) == IF g = "" THEN i ELSE Cell(tb[i], cs, g)
 Assignments(tb, cs, k, g) ==
